@@ -21,7 +21,7 @@ if ! (cd "$S/repo" && go build ./... && go test -vet=off -count=1 ./... > "$S/te
 fi
 echo "mutant builds and passes the repository tests"
 for ID in "$@"; do
-  VERIF_REPO="$S/repo" VERIF_OUT="$S/out" VERIF_TIER="${VERIF_TIER:-quick}" /verif/check "$ID" > "$S/$ID.log" 2>&1
+  VERIF_REPO="$S/repo" VERIF_OUT="$S/out" VERIF_TIER="${VERIF_TIER:-quick}" "${VERIF_CHECK:-/verif/check}" "$ID" > "$S/$ID.log" 2>&1
   rc=$?
   echo "$ID exit=$rc $(grep -a -m1 '^FAILED-CASE\|^INCONCLUSIVE' "$S/$ID.log" | cut -c1-300)"
 done
